@@ -114,7 +114,7 @@ def oracle(rng, tier):
 
 def correspondence(tier, seed):
     import corr_numeric
-    budget = {'thermo': 30, 'solver': 15}
+    budget = {'thermo': 30, 'solver': 15, 'curvemetrics': 10}
     if tier == 'thorough':
         budget = {k: v * 12 for k, v in budget.items()}
     return corr_numeric.run(seed, budget, nmax=30 if tier == 'quick' else 200, tag='C06')
